@@ -72,6 +72,7 @@ def tags(h, obs):
 
 register(PropSpec(
     "C01",
+    facts=["mapRanges"],
     engines=[EngineSpec("exec", gen, mon, tags, quick_n=180, thorough_n=3000, mask=mon_exec.mask_unmodelled, timeout=1800)],
     rule="exec engine, 3 replicas of one network with different local tuning (proof verification serial/parallel), the same "
          "ordered blocks on each; replica 0 is stopped and reopened at random places; traffic of every generator of the framework (mixed interchain, "
